@@ -304,7 +304,8 @@ create_1d_filter (int              width,
 	 * at the first sample, since that is the only one that
 	 * hasn't had any error diffused into it.
 	 */
-	*(p - width) += pixman_fixed_1 - new_total;
+	if (width > 0)
+	    *(p - width) += pixman_fixed_1 - new_total;
     }
 }
 
